@@ -1,6 +1,6 @@
 (* ESSelect.v — executable model (M10) of the selection bookkeeping of the search step:
      (a) ESSearch._get_selection_idx_mask_            (pybads/search/es_search.py l.44-69)
-     (b) the candidate accumulation / ranking loop of ESSearch.__call__ (l.134-210)
+     (b) the candidate accumulation / ranking loop of ESSearch.__call__ (l.134-214)
      (c) the argmin + single evaluation of BADS._search_step_ (pybads/bads/bads.py l.1630-1655)
      (d) the hedge probabilities and the choice of ESSearchHedge.__call__ (search_hedge.py l.58-67)
    Floats are exact rationals.  Oracle inputs (never recomputed here): the weight vector [w0] after
@@ -191,14 +191,24 @@ Section ES.
     | g :: r => es_loop false lamb (es_step first lamb st g) r
     end.
 
-  (* return us[0], z[0] — None models the IndexError on an empty [us] *)
-  Definition es_result (st : es_state) : option (row * Q) :=
-    match us st, zs st with
-    | u :: _, z :: _ => Some (u, z)
-    | _, _ => None
+  (* l.210-214 (after repo commit 692d1d7):
+         if us.shape[0] == 0: return us, z        -- the empty search set: a failed search
+         return us[0], z[0]
+     ESStuck models an IndexError on z[0]; Proofs/ESSelectProofs.v (es_never_stuck) shows it unreachable.
+     Faithful for n_search_iter >= 1 only: with zero passes the code returns rows of an uninitialised
+     np.empty array, the model ESEmpty. *)
+  Inductive es_out := ESPoint (u : row) (z : Q) | ESEmpty | ESStuck.
+
+  Definition es_result (st : es_state) : es_out :=
+    match us st with
+    | [] => ESEmpty
+    | u :: _ => match zs st with
+                | z :: _ => ESPoint u z
+                | [] => ESStuck
+                end
     end.
 
-  Definition es_run (lamb : nat) (gens : list (list (row * Q))) : option (row * Q) :=
+  Definition es_run (lamb : nat) (gens : list (list (row * Q))) : es_out :=
     es_result (es_loop true lamb es_init gens).
 
   (* -------------------------------------------------------------- (c) search-step argmin *)
@@ -241,6 +251,7 @@ End ES.
 
 Arguments usc {row}. Arguments zc {row}. Arguments us {row}. Arguments zs {row}.
 Arguments Call {row}.
+Arguments ESPoint {row}. Arguments ESEmpty {row}. Arguments ESStuck {row}.
 
 (* ------------------------------------------------------------------ filter projection *)
 (* np.maximum(np.minimum(U, ub), lb) of contraints_check(proj=True), coordinate-wise *)
@@ -308,13 +319,14 @@ Fixpoint qrow_eqb (a b : list Q) : bool :=
   | _, _ => false
   end.
 
-(* ES case: (lamb, generations, expected).  Expected None = IndexError.  When the minimal z is
-   carried by more than one survivor only z and membership are compared (argsort is not stable). *)
-Definition es_case_ok (c : (nat * list (list (list Q * Q))) * option (list Q * Q)) : bool :=
+(* ES case: (lamb, generations, expected).  When the minimal z is carried by more than one survivor
+   only z and membership are compared (argsort is not stable). *)
+Definition es_case_ok (c : (nat * list (list (list Q * Q))) * es_out (list Q)) : bool :=
   let '((lamb, gens), e) := c in
   match es_run (list Q) lamb gens, e with
-  | None, None => true
-  | Some (u, z), Some (u', z') =>
+  | ESEmpty, ESEmpty => true
+  | ESStuck, ESStuck => true
+  | ESPoint u z, ESPoint u' z' =>
       Qeq_bool z z' &&
       (let ties := filter (fun p : list Q * Q => Qeq_bool (snd p) z) (List.concat gens) in
        if (1 <? List.length ties)%nat then existsb (fun p : list Q * Q => qrow_eqb (fst p) u') ties
